@@ -1,6 +1,22 @@
 """C04 C05 C06 C07 C26 (and the unsubscribe/disconnect-callback clause of C08) -- spec/SubLifecycle: the subscription
 lifecycle of one connection under concurrent client/server subscribe, unsubscribe, close, presence tick and the
-dissolver job; exhaustive TLC on bounded operation sets, gate replay of TLC behaviours on real clients."""
+dissolver job; exhaustive TLC on bounded operation sets, gate replay of TLC behaviours on real clients.
+
+Routing attributes: each subscribe of a behaviour carries a tags filter (attr none / fA / fB; client Tf or server tags
+filter); the settled-state probe publishes three marker publications (tags t=a, t=b, untagged) and requires exactly the
+set admitted by the subscription the connection reports (read back through SubscribeOptions.Source).
+Failing round trips: PublishJoin, PublishLeave, AddPresence, RemovePresence and the dissolver job's Broker.Unsubscribe
+(with its retry) may fail, at most once per behaviour (quick_coded.cfg, sim.cfg, witnesses); harness/lifecycle wraps
+cl.GateBroker / cl.GatePresence so that a gated call is released with an error.
+
+Mutations caught by the fault / attribute extension (each exit 1, unchanged tree exit 0 for seeds 1-3):
+  unsubscribe returns the PublishLeave error before removeSubscription (seed C04-3)        -> C04 subscribed=false,routing=true
+  hub addSub keeps the existing entry and copies only subGen on a resubscribe (seed C04-4)  -> C04 markers:got=A,want=ABU / got=A,want=B
+  unsubscribe returns the RemovePresence error before the leave / removeSubscription        -> C04 subscribed=false,routing=true
+  Client.Subscribe skips onSubscribeErrorGen when subscribeCmd fails (AddPresence error)    -> C04 subscribed=false,routing=true
+  dissolver job returns nil when Broker.Unsubscribe failed (no retry)                       -> C26 broker=true,local=false
+  Dissolver.runWorker re-adds a failed job from a timer that reads the worker's reused job variable (seed C26-3)
+                                                                                            -> C26 broker-sub-without-local-interest:after-failed-unsubscribe (jobretryprobe)"""
 from lib import vf
 
 
@@ -18,8 +34,11 @@ def _run(c, prop):
     c.log('TLC simulate: %d behaviours' % len(behs))
     # witness behaviours: shortest schedules reaching the windows the properties are about, replayed in every run
     wit = []
-    for inv, opsdef in WITNESSES:
-        b = c.tlc_witness('SubLifecycle', 'SubLifecycle', 'sim.cfg', inv, overrides={'OpSets': opsdef})
+    from concurrent.futures import ThreadPoolExecutor
+    with ThreadPoolExecutor(max_workers=5) as ex:   # independent TLC runs (own cfg file and metadir each)
+        found = list(ex.map(lambda w: c.tlc_witness('SubLifecycle', 'SubLifecycle', 'sim.cfg', w[0], overrides=dict({'OpSets': w[1], 'AttrPairs': 'AP_None', 'Faults': 'NoFaults'}, **(w[2] if len(w) > 2 else {})), workers=2), WITNESSES))
+    for w, b in zip(WITNESSES, found):
+        inv = w[0]
         if b is None:
             c.notes.append('witness %s unreachable' % inv)
             c.cov['actions_never_taken'].append('witness:' + inv)
@@ -44,6 +63,15 @@ def _run(c, prop):
             c.cov['subscribe_failure_probes'] = pr2['completed']
             c.cov['traces_validated_against_impl'] += pr2['completed']
             c.cov['evaluations'] += pr2['executed']
+            # several channels, a backlog of deferred unsubscribes and failing Broker.Unsubscribe calls: Dissolver.tla
+            rd = c.tlc_exhaustive('SubLifecycle', 'Dissolver', 'dissolver.cfg', workers=4, timeout=900)
+            c.log('TLC exhaustive Dissolver dissolver.cfg: %d distinct / %d generated (incl. liveness: a failed job is retried)' % (rd['distinct'], rd['states']))
+            pr3 = c.harness(binp, 'jobretryprobe', {'n': 1 if quick else 3}, timeout=300)
+            c.absorb(pr3)
+            c.cov['job_retry_probes'] = pr3['completed']
+            c.cov['traces_validated_against_impl'] += pr3['completed']
+            c.cov['evaluations'] += pr3['executed']
+            c.cov['samples'] += pr3['samples'][:1]
         c.cov['traces_validated_against_impl'] += pr['completed']
         c.cov['evaluations'] += pr['executed']
         c.cov['samples'] += pr['samples'][:1]
@@ -55,10 +83,11 @@ def _run(c, prop):
             c.cov['traces_validated_against_impl'] += pr['completed']
             c.cov['evaluations'] += pr['executed']
     c.cov['rule'] = ('behaviours of SubLifecycle.tla from TLC -simulate (operation set and sync/async subscribe callback chosen in Init), each replayed on a real node+client: '
-                     'one model step releases one real goroutine from the natural gate / hook it is parked at and follows it to the next; state projection compared after every step; '
+                     'one model step releases one real goroutine from the natural gate / hook it is parked at (with an error when the step says the round trip fails) and follows it to the next; state projection compared after every step; '
                      'non-trivial = complete behaviour ending quiescent with all monitors evaluated, distinct by (ops, step list)')
     c.assumptions += ['one connection, one channel, presence and join/leave enabled, non-positioned subscription',
                       'the 5 s unsubscribe wait-gate timeout and Broker.Subscribe failures are not modelled',
+                      'a failing AddPresence / PublishJoin / PublishLeave / Broker.Unsubscribe has no effect in the backend, a failing RemovePresence removed the entry and lost its reply; at most one failing round trip per behaviour',
                       'dissolver jobs are replayed only after all threads finished (1 s delay cannot be scheduled); arbitrary job timing is explored by TLC only',
                       'a close spawned by a failing subscribe is replayed as starting immediately']
 
@@ -80,7 +109,15 @@ def _presence_stats(c):
 
 WITNESSES = [('W_TickAfterResubscribe', 'WOps1'), ('W_LeaveBeforeJoin', 'WOps2'), ('W_CloseDuringSubscribe', 'WOps3'),
              ('W_UnsubscribeWaited', 'WOps4'), ('W_StaleTickPresence', 'WOps6'),
-             ('W_ResubscribeBeforeJob', 'WOps7')]
+             ('W_ResubscribeBeforeJob', 'WOps7'),
+             # quiescent witnesses (the settled-state monitors run on them):
+             # a resubscribe's addSub overtakes the previous unsubscribe's removeSub, with different routing attributes
+             ('W_OverwriteByCS', 'WOpsA', {'AttrPairs': 'AP_A'}), ('W_OverwriteBySS', 'WOpsB', {'AttrPairs': 'AP_B'}),
+             # a failing round trip at each kind of call site
+             ('W_LeaveFailsCU', 'WOpsC', {'Faults': 'F_Leave'}), ('W_LeaveFailsSU', 'WOpsD', {'Faults': 'F_Leave'}),
+             ('W_LeaveFailsCL', 'WOpsE', {'Faults': 'F_Leave'}), ('W_RemPresFailsCU', 'WOpsC', {'Faults': 'F_RemP'}),
+             ('W_AddPresFailsCS', 'WOpsF', {'Faults': 'F_AddP'}), ('W_AddPresFailsSS', 'WOpsG', {'Faults': 'F_AddP'}),
+             ('W_JobFails', 'WOpsD', {'Faults': 'F_Unsub'})]
 
 
 def mk(prop):
@@ -92,19 +129,27 @@ def mk(prop):
             # the shared-poll track path has its own commit/cleanup protocol: spec/SharedPoll/TrackClose.tla
             from fam import keyed
             keyed.c05_keyed(c)
+            # map client / user presence kept in map channels: spec/MapSub/MapPresence.tla
+            from fam import mapsub
+            mapsub.c05_map(c)
+        if prop == 'C26':
+            # node-level bookkeeping of map channels (first-subscriber MapBroker.Subscribe may fail): spec/MapSub/MapHubSub.tla
+            from fam import mapsub
+            mapsub.c26_map(c)
     return f
 
 
 CHECKS = {p: mk(p) for p in ('C04', 'C05', 'C06', 'C07', 'C26')}
 
 _note = ('Bounds: exhaustive over every set of <=3 (quick) / <=4 (thorough) of the 6 threads {client subscribe (sync/async callback), client unsubscribe, server subscribe, '
-         'server unsubscribe, close, presence tick} plus dissolver jobs; replay: simulated behaviours over all thread sets. Trusted: TLC, lib/tlaparse.py, harness projection and monitor code, '
+         'server unsubscribe, close, presence tick} plus dissolver jobs; failing round trips: at most one per behaviour, exhaustive in the quick tier only (quick_coded.cfg), in simulation and witnesses in both tiers; '
+         'routing attributes: 2 (quick) / 3 (thorough) attribute pairs exhaustive, all 9 in simulation; replay: simulated behaviours over all thread sets. Trusted: TLC, lib/tlaparse.py, harness projection and monitor code, '
          'the 6 verif hook gates.')
 _t = 'TLA+ spec + TLC exhaustive; gate replay of TLC behaviours on real goroutines (natural gates + verif hooks); observable-only monitors'
 META = {
-    'C04': dict(level='model_checking', text='SubLifecycle.tla models reservation/commit/rollback with generations, the unsubscribe wait gate and generation-matched delete, close, hub entries; invariant: once settled, subscribed <=> exactly one routing entry of that generation. Replayed on real clients thread by thread; at the end the connection is probed with a marker publication (received exactly once iff it reports subscribed) and Hub.NumSubscribers.', note=_note, technique=_t),
+    'C04': dict(level='model_checking', text='SubLifecycle.tla models reservation/commit/rollback with generations, the unsubscribe wait gate and generation-matched delete, close, hub entries; invariant: once settled, subscribed <=> exactly one routing entry of that generation. Replayed on real clients thread by thread; every subscribe carries a routing attribute (tags filter) that the hub entry of its generation must carry; PublishJoin/PublishLeave/AddPresence/RemovePresence/Broker.Unsubscribe may fail once per behaviour (what each call site does with the error is modelled). At the end the connection is probed with three marker publications (tags t=a, t=b, untagged): it must receive, once each, exactly those admitted by the subscription it reports (none when it reports none), and Hub.NumSubscribers must agree.', note=_note, technique=_t),
     'C05': dict(level='model_checking', text='Same spec: after close in any interleaving with subscribe/unsubscribe/tick no channel entry, routing entry, registered connection or presence entry remains; checked on the real node after each complete behaviour that closes. Shared-poll track path: TrackClose.tla (track command as validate / callbacks / manager / commit / reply / keyed-hub join interleaved with close, unsubscribe, resubscribe), replayed with the command parked in the application callbacks; after the end the backend must no longer be polled for the keys of that connection.', note=_note + ' Track path: one key, 120 (quick) simulated behaviours + two witness schedules.', technique=_t),
     'C06': dict(level='model_checking', text='Same spec with the presence manager as a gate: after the operations settled and one presence tick ran, presence contains the connection iff it is subscribed.', note=_note + ' Statistics clause: spec/Presence (add/remove/read sequences over 3 clients x 2 users x 2 channels) replayed on the MemoryPresenceManager; Redis presence manager not observable here.', technique=_t),
     'C07': dict(level='model_checking', text='Same spec, join/leave observed where they reach the broker: per subscription one join before at most one leave; observably every prefix has at least as many joins as leaves and joins-leaves = 1 iff still subscribed.', note=_note, technique=_t),
-    'C26': dict(level='model_checking', text='Same spec with Broker.Subscribe/Unsubscribe as gates and the dissolver job: local subscribers imply a broker subscription outside the addSubscription critical section; after jobs drain broker-subscribed <=> local subscribers.', note=_note + ' Broker call failures/retries not modelled.', technique=_t),
+    'C26': dict(level='model_checking', text='Same spec with Broker.Subscribe/Unsubscribe as gates and the dissolver job: local subscribers imply a broker subscription outside the addSubscription critical section; after jobs drain broker-subscribed <=> local subscribers.', note=_note + ' Broker.Subscribe failures are covered by subfailprobe only; a failing Broker.Unsubscribe of the dissolver job and its retry are modelled (at most one fault per behaviour); several channels with a backlog of jobs on the worker pool: spec/SubLifecycle/Dissolver.tla (3 channels, 2 workers, <=2 failing calls, 1 rejoin; safety + "a failed job is retried" liveness), bound by jobretryprobe (128 emptied channels for the 64 workers, the first 64 Broker.Unsubscribe calls fail, every call slow).', technique=_t),
 }
